@@ -143,6 +143,12 @@ class ExprGen:
         if x < 0.8:
             return ("un", r.choice(UNOPS), self.gen(depth - 1))
         if x < 0.93 and self.allow_fn:
+            if self.allow_random and r.random() < 0.5:
+                # draws inside the branches of ite: only the selected one may consume a draw
+                def rnd():
+                    return ("fn", "random", [("num", r.choice([2, 3, 10, 100]))])
+                return ("fn", "ite", [self.gen(depth - 1), rnd() if r.random() < 0.8 else self.gen(depth - 1),
+                                      rnd() if r.random() < 0.8 else self.gen(depth - 1)])
             return ("fn", "ite", [self.gen(depth - 1), self.gen(depth - 1), self.gen(depth - 1)])
         if self.allow_random and self.allow_fn:
             return ("fn", "random", [("num", r.choice([2, 3, 10, 100, 2**31, 2**62]))])
@@ -640,6 +646,8 @@ def write_case(f, c):
         f.write("seed %d\n" % c["seed"])
     if "niter" in c:
         f.write("niter %d\n" % c["niter"])
+    if c.get("cont"):
+        f.write("cont 1\n")
     if "sched" in c:
         f.write("sched %s\n" % " ".join(str(i) for i in c["sched"]))
     f.write("end\n")
